@@ -250,6 +250,7 @@ mod verif_c18_cid_binding {
         kani::cover!(opt_same(&iscid, &wire_scid) && !opt_same(&odcid, &origin_dcid), "C18.cid.client.reach_odcid_mismatch_only");
         kani::cover!(bound && wire_scid.len == 0, "C18.cid.client.reach_zero_length_scid");
         kani::cover!(bound && wire_scid.len == 20, "C18.cid.client.reach_max_length_scid");
+        std::mem::forget(p); // tool limit: dropping the Arc'd sets makes CBMC walk hashbrown's drop loops
     }
 
     /// Server endpoint, both arrival orders of {ClientHello parameters, first client Initial}.
@@ -295,6 +296,7 @@ mod verif_c18_cid_binding {
         kani::cover!(bound, "C18.cid.server.reach_bound");
         kani::cover!(!bound, "C18.cid.server.reach_mismatch");
         kani::cover!(!bound && iscid.unwrap().len == wire_scid.len, "C18.cid.server.reach_same_length_different_bytes");
+        std::mem::forget(p);
     }
 
     // One harness per arrival order (and per "remembered 0-RTT set present"): the order is a constant in each,
